@@ -240,8 +240,26 @@ def pdf_moments_ob(base, via):
               f"{T}::TruncatedGaussianPDF.get_mean", group="pdf-moments")
 
 
-def pdf_ob(base, via):
+def pdf_ob(base, via, element_wise=False):
+    """element_wise: x has one row per component and the density of component r is evaluated at x_r only (added after the mutation sweep:
+    the element-wise branch of TruncatedGaussianPDF.__call__ multiplied by / divided by the normalising constant unnoticed)"""
+    def run_ew():
+        I = build.new_interp()
+        R = sym("R")
+        p, u, a, b = make_trunc(I, base, "TruncatedGaussianPDF")
+        x = nf.atom("x", [R, 1])
+        got = I.call_method(p, "__call__", [x], dict(element_wise=True))
+        dx = I.call_method(p.f["density"], "evaluate", [x], dict(element_wise=True))
+        from ..intrinsics import _compare_vals
+        ge, le = _compare_vals("Ge", x, a), _compare_vals("Le", x, b)
+        ind = nf.mul(Val(ge.axes[:1], ge.terms), Val(le.axes[:1], le.terms))
+        Z = I.call_method(p, "_expectation_integral", [])
+        ref = nf.mul(nf.mul(dx, ind), nf.elementwise("Recip", Z))
+        return nf.diff(got, ref, what="truncated density evaluation (element-wise)"), dict(funcs=funcs_of(I))
+
     def run():
+        if element_wise:
+            return run_ew()
         I = build.new_interp()
         R, N = sym("R"), sym("N")
         if via == "get_density":
@@ -266,7 +284,7 @@ def pdf_ob(base, via):
         if not nf.zero_mod_recip(nf.add(one, nf.const(1), -1)) and nf.diff(one, nf.add(nf.scale(one, 0), nf.const(1))):
             d += [("integral != 1", nf.show(one, 4))]
         return d, dict(funcs=funcs_of(I))
-    return Ob(f"pdf/{base}/{via}", run, "normalised truncated density == normalised base density(x) * indicator / truncated mass; integrates to one",
+    return Ob(f"pdf/{base}/{via}" + ("/elementwise" if element_wise else ""), run, "normalised truncated density == normalised base density(x) * indicator / truncated mass; integrates to one",
               f"{T}::TruncatedGaussianPDF.__call__", group="pdf")
 
 
@@ -343,6 +361,8 @@ def obligations(tier):
                 obs.append(homogeneity_ob(base, key))
         for via in ("get_density", "direct"):
             obs.append(pdf_ob(base, via))
+            if via == "direct":
+                obs.append(pdf_ob(base, via, element_wise=True))
             obs.append(pdf_moments_ob(base, via))
         for key in ("1", "x", "x**2"):
             obs.append(closed_form_ob(base, key))
@@ -358,7 +378,7 @@ def obligations(tier):
     return obs
 
 
-FLOORS = {"group:table": 1, "group:indicator": 6, "group:homogeneity": 6, "group:pdf": 6, "group:closed-form": 9, "group:power": 12, "group:zero-mass": 10, "group:pdf-moments": 6, "group:summary": 3}
+FLOORS = {"group:table": 1, "group:indicator": 6, "group:homogeneity": 6, "group:pdf": 9, "group:closed-form": 9, "group:power": 12, "group:zero-mass": 10, "group:pdf-moments": 6, "group:summary": 3}
 LEVEL = "other"
 EXPLANATION = ("Partial: dispatch table, support indicator, degree-one homogeneity of integrate('1'|'x'|'x**2') in the base mass and that the normalised variant evaluates the "
                "NORMALISED base density, for finite generic limits; closed forms of the integrals of 1, x, x**2 in Phi / phi; integrate('x**k') for every k in 0..6 (lax.scan unrolled) "
